@@ -41,7 +41,7 @@ def compare(scripts):
 
 def check(tier, seed):
     rng = random.Random(seed * 31 + 5)
-    scripts = [gen_script(rng) for _ in range(1500 if tier == "quick" else 15000)]
+    scripts = [gen_script(rng) for _ in range(1500 if tier == "quick" else 100000)]
     bad = compare(scripts)
     info = {"level": "L-txn (real SodiumCtx enter/leave/pre_eot/pre_post/post with recording closures vs M_txn: depth, queue lengths, allow counter and execution log after every line)",
             "scripts": len(scripts), "disagreements": len(bad), "sample": " ; ".join(scripts[0])}
